@@ -177,6 +177,10 @@ class Kernel:
                         and tname(rhs.base) == "NameNode" and self.side_of_arr.get(rhs.base.name) == self.side_of_val[lhs.name] \
                         and tname(unwrap(rhs.indices[0])) == "NameNode" and unwrap(rhs.indices[0]).name == self.ptr[self.side_of_val[lhs.name]]:
                     out.append(("RELOAD", self.side_of_val[lhs.name], s.pos[1]))
+                elif tname(lhs) == "NameNode" and tname(rhs) == "AddNode" and self._plus_one(rhs, lhs.name) and lhs.name == self.result_len:
+                    out.append(("INC_RESULT", None, s.pos[1]))  # x = x + 1 is x += 1
+                elif tname(lhs) == "NameNode" and tname(rhs) == "AddNode" and self._plus_one(rhs, lhs.name) and lhs.name in self.side_of_ptr:
+                    out.append(("ADV", self.side_of_ptr[lhs.name], s.pos[1]))
                 else:
                     out.append(("UNKNOWN", "assignment", s.pos[1]))
             elif k == "InPlaceAssignmentNode":
@@ -202,6 +206,14 @@ class Kernel:
             else:
                 out.append(("UNKNOWN", k, s.pos[1]))
         return out
+
+    @staticmethod
+    def _plus_one(add, name):
+        a, b = unwrap(add.operand1), unwrap(add.operand2)
+        for x, y in ((a, b), (b, a)):
+            if tname(x) == "NameNode" and x.name == name and tname(y) == "IntNode" and int(y.value) == 1:
+                return True
+        return False
 
     def exhausted_test(self, ifn):
         """`if X_ptr >= X_len: break` (or an equivalent test) -> side."""
